@@ -12,7 +12,7 @@ structure SecondlyArgs (a : Args) : Prop where
   freq : a.freq = 6
   interval : 1 ≤ a.interval
   valid : a.dtstart.Valid
-  byweekno : a.byweekno = none
+  weekno : WArg a
   byeaster : a.byeaster = none
   monthday_nz : ∀ x ∈ a.bymonthday.getD [], x ≠ 0
   byhour : a.byhour = none
@@ -21,15 +21,15 @@ structure SecondlyArgs (a : Args) : Prop where
 
 variable {a : Args} {r : Rule}
 
-theorem sa_dw (sa : SecondlyArgs a) : DWArgs (asDaily a) :=
-  ⟨Or.inr rfl, sa.interval, sa.valid, sa.byweekno, sa.byeaster, sa.monthday_nz⟩
+theorem sa_dw (sa : SecondlyArgs a) : DWArgs (asDaily0 a) :=
+  ⟨Or.inr rfl, sa.interval, sa.valid, rfl, sa.byeaster, sa.monthday_nz⟩
 
 abbrev secondlyRuleOf (a : Args) : Rule :=
   { freq := a.freq, interval := a.interval, wkst := a.wkst.getD 0,
     dtstart := { a.dtstart with us := 0 }, tz := a.tz, count := a.count, untilDT := a.untilDT,
     bysetpos := a.bysetpos, bymonth := a.bymonth.map sortedSet, bymonthday := bymonthdayOf a,
     bynmonthday := bynmonthdayOf a, byyearday := a.byyearday.map sortedSet,
-    byeaster := none, byweekno := none,
+    byeaster := none, byweekno := a.byweekno.map sortedSet,
     byweekday := byweekdayOf a, bynweekday := bynweekdayOf a,
     byhour := none, byminute := none, bysecond := none, timeset := none }
 
@@ -61,48 +61,25 @@ theorem sly_rule (sa : SecondlyArgs a) (h : construct a = .ok r) : r = secondlyR
     injection h5 with h5; exact h5.symm
   subst hbh hbm hbs hts
   have hne0 : (a.freq == 0) = false := by simp [sa.freq]
-  simp [secondlyRuleOf, hne0, sa.byweekno, sa.byeaster, bymonthOf]
+  simp [secondlyRuleOf, hne0, sa.byeaster, bymonthOf]
 
 theorem sly_cuts (sa : SecondlyArgs a) (h : construct a = .ok r) : CutsAgree a r := by
   rw [sly_rule sa h]; exact ⟨rfl, rfl, rfl⟩
 
-theorem sly_simple (sa : SecondlyArgs a) (h : construct a = .ok r) : SimpleRule r := by
+theorem sly_wrule (sa : SecondlyArgs a) (h : construct a = .ok r) : WRule r := by
   have hd := construct_nth_demoted a r h (by rw [sa.freq]; omega)
-  rw [sly_rule sa h] at hd ⊢
-  refine ⟨rfl, ?_, rfl⟩
+  have hr := sly_rule sa h
+  rw [hr] at hd ⊢
+  refine wrule_of a _ sa.weekno rfl rfl ?_ rfl
   dsimp only at hd ⊢
   rcases hd with hd | hd <;> rw [hd] <;> rfl
 
-theorem date_fields_asDaily_s (sa : SecondlyArgs a) :
-    bymonthdayOf (asDaily a) = bymonthdayOf a ∧ bynmonthdayOf (asDaily a) = bynmonthdayOf a ∧
-    byweekdayOf (asDaily a) = byweekdayOf a := by
-  have hm : monthdayArg (asDaily a) = monthdayArg a := by
-    unfold monthdayArg asDaily; simp [sa.freq]
-  have hw : weekdayArg (asDaily a) = weekdayArg a := by
-    unfold weekdayArg asDaily; simp [sa.freq]
-  have hp : ∀ l, plainWeekdays (asDaily a) l = plainWeekdays a l := by
-    intro l; unfold plainWeekdays asDaily; simp [sa.freq]
-  refine ⟨by unfold bymonthdayOf; rw [hm], by unfold bynmonthdayOf; rw [hm], ?_⟩
-  unfold byweekdayOf; rw [hw]
-  cases weekdayArg a with
-  | none => rfl
-  | some l => dsimp only; rw [hp]
-
-theorem simpleOk_eq_dateOk_secondly (sa : SecondlyArgs a) (h : construct a = .ok r) (ord : Int) (ho : 1 ≤ ord) :
-    simpleOk r ord = Spec.RRule.dateOk a ord := by
+/-- **bridge**: the model's filter predicate is the specification's `dateOk` -/
+theorem sly_bridge (sa : SecondlyArgs a) (h : construct a = .ok r) (ord : Int) (ho : 1 ≤ ord) :
+    (simpleOk r ord && wclause r ord) = Spec.RRule.dateOk a ord := by
   have hr := sly_rule sa h
-  have h1 := simpleOk_rule_eq_dateOk (sa_dw sa) none none none ord ho
-  obtain ⟨e1, e2, e3⟩ := date_fields_asDaily_s sa
-  have hs : simpleOk r ord = simpleOk (dailyRuleOf (asDaily a) none none none) ord := by
-    rw [hr]
-    unfold simpleOk
-    dsimp only
-    rw [e1, e2, e3]
-    rfl
-  rw [hs, h1]
-  unfold Spec.RRule.dateOk Spec.RRule.months Spec.RRule.monthdays Spec.RRule.weekdays Spec.RRule.nthOk
-    Spec.RRule.noDayParts Spec.RRule.wkst asDaily
-  simp [sa.freq]
+  rw [hr]
+  exact wOk_eq_dateOk a _ (by rw [sa.freq]; omega) (sa_dw sa) rfl rfl rfl rfl rfl rfl rfl ord ho
 
 /-- the second's time set is the specification's -/
 theorem stimeset_spec (sa : SecondlyArgs a) (hour minute second : Int)
@@ -130,7 +107,7 @@ theorem stimeset_spec (sa : SecondlyArgs a) (hour minute second : Int)
 /-- "the model state at the start of period `k`" for a SECONDLY rule -/
 structure SecondlyGood (a : Args) (r : Rule) (k : Nat) (st : State) : Prop where
   facts : YearFacts r st.cur.year st.info
-  nwd : st.info.nwdaymask = none
+  inv : WInv r st.info
   valid : ValidYMD st.cur.year st.cur.month st.cur.day
   hour : 0 ≤ st.cur.hour ∧ st.cur.hour ≤ 23
   minute : 0 ≤ st.cur.minute ∧ st.cur.minute ≤ 59
@@ -160,49 +137,29 @@ theorem sly_results (sa : SecondlyArgs a) (h : construct a = .ok r) (k : Nat) (s
     ∃ fl, periodResults r st = .ok (Spec.RRule.sel a (k : Int), none, fl) ∧
       (fl = true → Spec.RRule.dateOk a (curOrd st.cur) = false) ∧
       ∀ x ∈ Spec.RRule.sel a (k : Int), 0 ≤ x.ord ∧ x.ord ≤ maxOrdinal := by
-  have hs := sly_simple sa h
+  have hw := sly_wrule sa h
   have hr := sly_rule sa h
   have hfreq : r.freq = 6 := by rw [hr]; exact sa.freq
   have hsp := construct_bysetpos a r h
   have htsok : TsOk st.timeset := by
     rw [hg.timeset]
     exact (stimeset_spec sa _ _ _ hg.hour.1 hg.hour.2 hg.minute.1 hg.minute.2 hg.second.1 hg.second.2).2
-  have hidx := index_range _ _ _ hg.valid
-  have hyo := hg.facts.yearordinal
-  have hyl := hg.facts.yearlen
   have hpos : 1 ≤ curOrd st.cur := toOrdinal_pos _ _ _ hg.facts.year_lo hg.valid
-  have hd0 := dayset_daily st.cur (by omega) hg.facts hg.valid
-  have hd : dayset r st.info st.cur =
-      .ok (intRange (curOrd st.cur - st.info.yearordinal) (curOrd st.cur - st.info.yearordinal + 1)) := by
-    rw [hd0, intRange_one]
-  have hi0 : 0 ≤ curOrd st.cur - st.info.yearordinal := by unfold curOrd; rw [hyo]; exact hidx.1
-  have hi1 : curOrd st.cur - st.info.yearordinal + 1 ≤ st.info.yearlen + 7 := by
-    unfold curOrd; rw [hyo, hyl]; omega
-  obtain ⟨fl, hres⟩ := periodResults_range_sp hs st hg.facts hg.nwd (by rw [hsp.1]; exact hsp.2) htsok _ _ hd hi0 hi1
-    (by omega) (by omega)
-  have e1 : st.info.yearordinal + (curOrd st.cur - st.info.yearordinal) = curOrd st.cur := by omega
-  have e2 : st.info.yearordinal + (curOrd st.cur - st.info.yearordinal + 1) = curOrd st.cur + 1 := by omega
-  rw [e1, e2] at hres
-  have hbridge : (intRange (curOrd st.cur) (curOrd st.cur + 1)).filter (simpleOk r) =
+  obtain ⟨fl, hres, hflag⟩ := periodResults_day_w hw st hg.facts hg.inv hg.valid (by omega)
+    (by rw [hsp.1]; exact hsp.2) htsok hle
+  have hbridge : (intRange (curOrd st.cur) (curOrd st.cur + 1)).filter (fun o => simpleOk r o && wclause r o) =
       (intRange (curOrd st.cur) (curOrd st.cur + 1)).filter (Spec.RRule.dateOk a) := by
     apply List.filter_congr
     intro o ho
-    exact simpleOk_eq_dateOk_secondly sa h o (by have := (mem_intRange _ _ _).mp ho; omega)
+    exact sly_bridge sa h o (by have := (mem_intRange _ _ _).mp ho; omega)
   have hspan := sly_span sa (curOrd st.cur) st.cur.hour st.cur.minute st.cur.second k hg.hour.1 hg.hour.2
     hg.minute.1 hg.minute.2 hg.second.1 hg.second.2 hg.idx
   have hsel := sel_span_gen a k _ _ _ _ _ hspan
   refine ⟨fl, ?_, ?_, ?_⟩
   · rw [hres, hg.timeset, hsel, hbridge, hsp.1]
   · intro hf
-    obtain ⟨i, hi, hfi⟩ := periodResults_flag st _ hd0 _ _ _ hres hf
-    simp only [List.mem_singleton] at hi
-    subst hi
-    rw [dayFiltered_simple hs hg.facts hg.nwd _ hi0 (by omega), e1] at hfi
-    injection hfi with hfi
-    rw [← simpleOk_eq_dateOk_secondly sa h _ hpos]
-    cases hq : simpleOk r (curOrd st.cur) with
-    | false => rfl
-    | true => rw [hq] at hfi; cases hfi
+    rw [← sly_bridge sa h _ hpos]
+    exact hflag hf
   · intro x hx
     rw [hsel] at hx
     have := sel_bounds _ _ _ _ x (applySetpos_subset _ _ x hx)
@@ -218,7 +175,7 @@ theorem sly_advance_core (sa : SecondlyArgs a) (h : construct a = .ok r) (k : Na
         else st.cur.second) = st.cur.second + X)
     (hle : curOrd st.cur * 86400 + 86399 + a.interval < (maxOrdinal + 1) * 86400) :
     ∃ st', advance r { st with count := c } fl = .ok st' ∧ SecondlyGood a r (k + s + 1) st' := by
-  have hs := sly_simple sa h
+  have hw := sly_wrule sa h
   have hr := sly_rule sa h
   have hfreq : r.freq = 6 := by rw [hr]; exact sa.freq
   have hint : r.interval = a.interval := by rw [hr]
@@ -274,7 +231,7 @@ theorem sly_advance_core (sa : SecondlyArgs a) (h : construct a = .ok r) (k : Na
   · subst hz
     simp only [ne_eq, not_true_eq_false, ↓reduceIte, decide_false]
     rw [fixDay_false]
-    refine ⟨_, rfl, ⟨hg.facts, hg.nwd, hg.valid, ⟨d10, d11⟩, ⟨d6, d7⟩, ⟨d2, d3⟩, ?_, rfl⟩⟩
+    refine ⟨_, rfl, ⟨hg.facts, hg.inv, hg.valid, ⟨d10, d11⟩, ⟨d6, d7⟩, ⟨d2, d3⟩, ?_, rfl⟩⟩
     dsimp only
     have : curOrd { st.cur with hour := hr', minute := mi', second := se' } = curOrd st.cur := rfl
     rw [this, ek]; omega
@@ -282,10 +239,10 @@ theorem sly_advance_core (sa : SecondlyArgs a) (h : construct a = .ok r) (k : Na
     have hcur : curOrd { st.cur with day := st.cur.day + nd, hour := hr', minute := mi', second := se' } =
         curOrd st.cur + nd := by
       unfold curOrd toOrdinal; dsimp only; omega
-    obtain ⟨st', hfix, hnw'⟩ := fixDay_ok r hs
+    obtain ⟨st', hfix, hnw'⟩ := fixDay_ok_w hw
       { cur := { st.cur with day := st.cur.day + nd, hour := hr', minute := mi', second := se' }, info := st.info,
         timeset := Spec.RRule.timesOf a (some hr') (some mi') (some se'), count := c }
-      hm1 hm12 (by dsimp only; omega) hg.facts.year_lo hg.facts.year_hi (by dsimp only; rw [hcur]; omega) hg.nwd
+      true hm1 hm12 (by dsimp only; omega) hg.facts.year_lo hg.facts.year_hi (by dsimp only; rw [hcur]; omega) hg.inv
     have sp := fixDay_spec r _ st' hfix hm1 hm12 (by dsimp only; omega) hg.facts
     obtain ⟨e, v, f', eh, em, es, _, ts⟩ := sp
     refine ⟨st', hfix, ⟨f', hnw', v, by rw [eh]; exact ⟨d10, d11⟩, by rw [em]; exact ⟨d6, d7⟩,
@@ -352,10 +309,10 @@ theorem sly_next (sa : SecondlyArgs a) (h : construct a = .ok r) (k : Nat) (st :
 
 theorem sly_init (sa : SecondlyArgs a) (h : construct a = .ok r) :
     ∃ st0, init r = .ok st0 ∧ SecondlyGood a r 0 st0 ∧ st0.count = r.count := by
-  have hs := sly_simple sa h
+  have hw := sly_wrule sa h
   have hv := sa.valid
   unfold DT.Valid ValidDate at hv
-  obtain ⟨info, hre, hnw, _, _⟩ := rebuild_simple r hs a.dtstart.y a.dtstart.m hv.1.1 hv.1.2.1
+  obtain ⟨info, hre, hnw⟩ := rebuild_w hw a.dtstart.y a.dtstart.m hv.1.1 hv.1.2.1
   have hr := sly_rule sa h
   have hd : r.dtstart = { a.dtstart with us := 0 } := by rw [hr]
   have hf : r.freq = 6 := by rw [hr]; exact sa.freq
